@@ -169,6 +169,11 @@ def run(ctx):
         # the published names must all still work when user names are registered
         m = rng.choice(models)
         expect_model(f"1.0 K+ pi- {m} 3;", m, False, [3.0], ["K+", "pi-"], extra=extra, calls=calls, label="published-with-registered", nontrivial=True)
+        # a name registered with one parser is not known to another parser made afterwards (nor to one that registers other names)
+        if spec_lex_model(models, u + " ") is None and spec_lex_model(models, u + ";") is None:
+            expect_reject(f"1.0 K+ pi- {u};", extra=(), label="registered-elsewhere")
+            if others and u not in others:
+                expect_reject(f"1.0 K+ pi- {u} 0.25;", extra=[x for x in others if x not in models], label="registered-elsewhere")
         # a word extending the registered name with a word character is not that model
         if True:
             near = u + rng.choice(["x", "_", "7", "X"])
